@@ -46,9 +46,43 @@ const SITES: [&str; 19] = [
 
 fn program(shape_id: &str, shift: i64, site: &str, v: i64, pos_last: bool) -> String {
     let (methods, _) = shape(shape_id, shift);
+    program_with(&methods, site, v, pos_last)
+}
+
+/// One method of a generated declaration: (name, variant) -> (source, model encoding).
+fn method_variant(name: &str, variant: &str, shift: i64) -> (String, String) {
+    let ok = if shift == 0 { "Ok(Pos(n))".to_string() } else { format!("Ok(Pos(n + {shift}))") };
+    let res = "g2.Result.s.Pos.s.str";
+    match variant {
+        "hook" => (format!("    def {name}(n: int) -> Result[Pos, str]:\n        if n <= 0:\n            return Err(\"must be positive\")\n        return {ok}\n\n"), format!("{name}/0/s.int/{res}")),
+        "recv" => (format!("    def {name}(self, n: int) -> Result[Pos, str]:\n        if n <= 0:\n            return Err(\"must be positive\")\n        return Ok(Pos(n))\n\n"), format!("{name}/1/s.int/{res}")),
+        "opt" => (format!("    def {name}(n: int) -> Option[Pos]:\n        if n <= 0:\n            return None\n        return Some(Pos(n))\n\n"), format!("{name}/0/s.int/g1.Option.s.Pos")),
+        "wrongparam" => (format!("    def {name}(s: str) -> Result[Pos, str]:\n        if len(s) == 0:\n            return Err(\"empty\")\n        return Ok(Pos(1))\n\n"), format!("{name}/0/s.str/{res}")),
+        "twoparams" => (format!("    def {name}(n: int, m: int) -> Result[Pos, str]:\n        if n <= 0:\n            return Err(\"must be positive\")\n        return Ok(Pos(n + m))\n\n"), format!("{name}/0/s.int+s.int/{res}")),
+        _ => (format!("    def {name}(n: int) -> Result[Other, str]:\n        if n <= 0:\n            return Err(\"must be positive\")\n        return Ok(Other(n))\n\n"), format!("{name}/0/s.int/g2.Result.s.Other.s.str")),
+    }
+}
+
+/// A declaration with 1-3 methods of distinct names, each hook-shaped or one of the near misses.
+fn gen_shape(r: &mut Rng, shift: i64) -> (String, String) {
+    let mut names = vec!["from_underlying", "from_int", "from_text", "from_a", "check", "make_pos"];
+    let n = 1 + r.below(3) as usize;
+    let mut src = String::new();
+    let mut enc: Vec<String> = Vec::new();
+    for _ in 0..n {
+        let name = names.remove(r.below(names.len() as u64) as usize);
+        let variant = if r.chance(1, 2) { "hook" } else { *r.pick(&["recv", "opt", "wrongparam", "twoparams", "resother"]) };
+        let (m, e) = method_variant(name, variant, shift);
+        src.push_str(&m);
+        enc.push(e);
+    }
+    (src, enc.join(","))
+}
+
+fn program_with(methods: &str, site: &str, v: i64, pos_last: bool) -> String {
     let mut s = String::new();
     let mut pos = String::from("type Pos = newtype int:\n");
-    pos.push_str(&methods);
+    pos.push_str(methods);
     pos.push_str("    def bump(self, d: int) -> Pos:\n        return Pos(self.0 + d)\n\n");
     if !pos_last {
         s.push_str(&pos);
@@ -179,6 +213,17 @@ pub fn run(out: &mut Out, tier: &str, seed: u64, _scratch: &str) {
         let last = rng.chance(1, 2);
         reqs.push(format!("c17 site {} {shift} {site} {v} {}", shape(sh, shift).1, last as u8));
         cases.push(Case { name: String::new(), source: program(sh, shift, site, v, last) });
+    }
+    // generated declarations: 1-3 methods, each hook-shaped or a near miss, under hook-like and other names
+    let n_gen = if tier == "thorough" { 300 } else { 50 };
+    for _ in 0..n_gen {
+        let shift = *rng.pick(&[0i64, 0, 100]);
+        let (methods, enc) = gen_shape(&mut rng, shift);
+        let site = *rng.pick(&["let", "othermethod", "list2", "arg", "ret", "field"]);
+        let v = *rng.pick(&[5i64, -2, 0, 3]);
+        let last = rng.chance(1, 2);
+        reqs.push(format!("c17 site {enc} {shift} {site} {v} {}", last as u8));
+        cases.push(Case { name: String::new(), source: program_with(&methods, site, v, last) });
     }
     for k in 0..UNDERLYINGS.len() {
         for hook_name in ["from_underlying", "from_raw"] {
